@@ -13,8 +13,8 @@ RULE = (
     "distinct = canonical circuit + assumption lists"
 )
 BUDGET = {
-    "quick": {"workers": 16, "cases": 110, "secs": 45, "min_cases": 700},
-    "thorough": {"workers": 16, "rounds": 4, "cases": 450, "secs": 240, "min_cases": 8000},
+    "quick": {"workers": 16, "cases": 450, "secs": 60, "min_cases": 3600},
+    "thorough": {"workers": 16, "rounds": 4, "cases": 1300, "secs": 420, "min_cases": 41600},
 }
 ANCHORS = ["sat:cnf", "sat:solve", "sat:construct_solver", "sat:add_assumptions"]
 
